@@ -14,10 +14,9 @@ CONSTANTS
   DialFails = FALSE
   SfScripted = TRUE
   EnvLite = TRUE
-  AsIs_Spin = FALSE
   AsIs_SharedConfig = FALSE
   Mut = "none"
 
 SPECIFICATION GenSpec
-INVARIANTS TypeOK CopyLaw SocksClosedOnce SfClosedOnce ReplyLaw ConfigIsolation ConfigSeenWhenDue LoopEndsOnlyOnPerm LnClosedByLoop NoSpin NoLeak NoStuck
+INVARIANTS TypeOK CopyLaw SocksClosedOnce SfClosedOnce ReplyLaw ConfigIsolation ConfigSeenWhenDue LoopEndsOnlyOnPerm LnClosedByLoop NoLeak NoStuck
 CHECK_DEADLOCK FALSE
